@@ -17,8 +17,8 @@ import (
 	"sync"
 	"sync/atomic"
 
-	"foxverif/gen"
 	"foxverif/conc"
+	"foxverif/gen"
 	"foxverif/hist"
 	"foxverif/kit"
 
